@@ -81,6 +81,26 @@ def synth_curve(model_key, params, rng, n_app=300, n_ret=200, zmax=3e-6, depth=1
     return make_indentation(force, height, seg, tip=tip, path=path, enum=enum)
 
 
+def synth_curve_dwell(model_key, params, rng, n_app=200, n_dwell=60, n_ret=150, zmax=3e-6, depth=1.2e-6, noise=0.0,
+                      seed=0):
+    """approach (segment 0), a dwell at the deepest point during which the force relaxes (segment 1), retract
+    (segment 2) - as recorded with a pause; approach and retract follow `model_key` exactly (plus noise)"""
+    from curves import make_indentation
+    cp = params["contact_point"].value
+    ta = np.linspace(cp + zmax, cp - depth, n_app)
+    td = np.full(n_dwell, cp - depth) + 1e-10 * np.sin(np.arange(n_dwell))      # (piezo holds, nm-level wobble)
+    tr = np.linspace(cp - depth, cp + zmax, n_ret + 1)[1:]
+    tip = np.concatenate([ta, td, tr])
+    force = model_force(model_key, tip, params)
+    fdeep = force[n_app - 1]
+    force[n_app:n_app + n_dwell] = fdeep * (1 - 0.2 * (1 - np.exp(-np.arange(n_dwell) / (0.3 * n_dwell))))
+    if noise:
+        force = force + np.random.default_rng(seed).normal(0, noise, force.size)
+    seg = np.concatenate([np.zeros(n_app), np.ones(n_dwell), np.full(len(tr), 2)])
+    height = tip - force / 0.05
+    return make_indentation(force, height, seg, tip=tip)
+
+
 class MinimizeRecorder:
     """wraps nanite.fit.lmfit.minimize: records, for every optimiser call, the initial and the
     resulting contact point (k-scaled units) and the number of points"""
